@@ -23,7 +23,36 @@ SHRINK_SIMPLE = {"knobs": None, "consumer": "plain", "allocator": None, "k4": No
 
 
 # ------------------------------------------------------------------ generation
+def generate_huge(rng) -> dict:
+    """Plans on a stream of several GiB (sparse on the simulated disk): short ranges placed where the byte offset
+    passes 2^31 / 2^32 and where a file of the set starts beyond them."""
+    from .c02 import generate_huge as g02
+
+    base = g02(rng)
+    files = base["files"]
+    nch = files["nchans"]
+    N = sum(files["nsamps"])
+    hot = sorted({(a + b) // 2 // nch for a, b in files["windows"]})
+    ops = []
+    for _ in range(rng.choice([1, 1, 2, 3])):
+        h = rng.choice(hot)
+        ns = rng.randint(1, max(1, 150 // nch))
+        st = max(0, min(N - 1, h - rng.randint(0, ns)))
+        ns = max(1, min(ns, N - st))
+        gulp = rng.choice([1, 2, 3, rng.randint(1, ns), ns, ns + 2])
+        eff = min(gulp, ns)
+        sb = rng.choice([0, 0, rng.randint(0, max(0, eff // 2)), rng.randint(0, max(0, eff - 1))])
+        ops.append({"op": "plan", "gulp": gulp, "start": st, "nsamps": None if (st + ns == N and rng.random() < 0.5) else ns, "skipback": sb,
+                    "consumer": rng.choice(["plain", "K1"]), "allocator": None, "abandon_at": None, "k4": None})
+        if rng.random() < 0.3:
+            st2 = max(0, min(N - 1, rng.choice(hot) - rng.randint(0, 8)))
+            ops.append({"op": "read_block", "start": st2, "nsamps": max(1, min(rng.randint(1, 12), N - st2))})
+    return {"files": files, "ops": ops, "faults": [], "huge": True}
+
+
 def generate(rng, tier) -> dict:
+    if rng.random() < 0.02:
+        return generate_huge(rng)
     big = rng.random() < (0.03 if tier == "quick" else 0.1)
     files = gen_big_files(rng) if big else gen_files(rng, max_total=48 if tier == "quick" else 256)
     N = sum(files["nsamps"])
@@ -98,6 +127,20 @@ def fixup(sc):
     f = sc["files"]
     if f["nbits"] not in (1, 2, 4, 8, 16, 32) or f["nchans"] < 1 or (f["nchans"] * f["nbits"]) % 8:
         return None
+    if sc.get("huge"):
+        # a multi-gigabyte sparse set: every plan stays a SHORT range (nothing may walk the stream), no second reader
+        if f["nbits"] != 8 or f.get("windows") is None:
+            return None
+        f["windows"] = [[int(a), min(int(b), int(a) + 1024)] for a, b in f["windows"] if int(b) > int(a)][:16]
+        Nh = sum(max(1, int(n)) for n in f["nsamps"][:3])
+        for o in sc["ops"]:
+            o["start"] = max(0, min(int(o["start"]), Nh - 1))
+            lim = min(4096, Nh - o["start"])
+            o["nsamps"] = lim if (o["nsamps"] is None and lim < Nh - o["start"]) else (None if o["nsamps"] is None else max(1, min(int(o["nsamps"]), lim)))
+            if o["op"] == "plan":
+                o["k4"] = None
+                o["orphan"] = None
+        sc["faults"] = []
     f["nsamps"] = [n for n in f["nsamps"] if n >= 1][:3]
     if not f["nsamps"]:
         return None
@@ -277,11 +320,8 @@ def regime(op, N) -> tuple:
 # ------------------------------------------------------------------ execution
 def _plan_of(rd, op, kw):
     """The plan object of `rd`; when this frame returns, the caller's own references are all that keep `rd` alive."""
-    import gc
-
     gen = iter(rd.read_plan(gulp=nint(op["gulp"]), start=nint(op["start"]), nsamps=nint(op["nsamps"]), skipback=nint(op["skipback"]), quiet=True, **kw))
     del rd
-    gc.collect()
     return gen
 
 
@@ -289,7 +329,11 @@ def execute(sc, ctx) -> None:
     from sigpyproc.readers import FilReader
 
     files = sc["files"]
-    fs = filgen.write_fileset(ctx.root, files)
+    if sc.get("huge"):
+        fs = filgen.sparse_fileset(ctx.root, files)
+        ctx.probe("multi-gigabyte-sparse-stream")
+    else:
+        fs = filgen.write_fileset(ctx.root, files)
     N = fs.nsamples
     nbits, nchans = files["nbits"], files["nchans"]
     stride = nchans * nbits // 8
@@ -318,7 +362,7 @@ def execute(sc, ctx) -> None:
             else:
                 dup = copy.copy(reader)
                 del dup
-            gc.collect()
+                gc.collect(0)  # (reference counting has already finalised it; a young-generation pass costs nothing)
             ctx.probe("orphan:" + op["orphan"])
         try:
             return _plan_of(rd, op, kw)
